@@ -776,29 +776,33 @@ def to_cb(case):
     env0 = TypeEnv(vt)
     funcs, methods = [], {"P": [], "In": []}
 
-    def r_call(o, envc, pnc, ind):
-        """text of the call statement; the callee's definition is registered in funcs / methods (its own callees first)"""
+    def r_call(o, envc, pnc, ind, depth=0):
+        """text of the call statement; the callee's definition is registered in funcs / methods (its own callees first).
+        Parameters are named q<i> in a callee called from main and r<i> in a callee called from a callee (a T& parameter
+        is bound BY NAME in the implementation: equal names in caller and callee are the recorded finding
+        C07-ref-param-name-clash, reproduced with case["same_names"])"""
         prm = o["params"]
         is_m = prm[0]["mode"] == "self"
         pt, pn, decls, args = [], [], [], []
+        q = "r" if depth and not case.get("same_names") else "q"
         for i, p in enumerate(prm):
             md, ty = p["mode"], p["ty"]
             if md == "self":
                 pt.append(ty); pn.append("self")
                 continue
-            pn.append("q%d" % i)
+            pn.append("%s%d" % (q, i))
             if md in ("ptr", "pval"):
-                pt.append("*" + ty); decls.append("%s* q%d" % (ty, i))
+                pt.append("*" + ty); decls.append("%s* %s%d" % (ty, q, i))
                 args.append(("&" if md == "ptr" else "") + render(p["arg"], envc, p["sty"], pnc))
             elif md == "ref":
-                pt.append(ty); decls.append("%s& q%d" % (cb_type(ty), i)); args.append(render(p["arg"], envc, p["sty"], pnc))
+                pt.append(ty); decls.append("%s& %s%d" % (cb_type(ty), q, i)); args.append(render(p["arg"], envc, p["sty"], pnc))
             else:
-                pt.append(ty); decls.append("%s q%d" % (cb_type(ty), i)); args.append(render(p["arg"], envc, p["sty"], pnc))
+                pt.append(ty); decls.append("%s %s%d" % (cb_type(ty), q, i)); args.append(render(p["arg"], envc, p["sty"], pnc))
         env = TypeEnv(vt, pt)
         body = []
         for s in o["body"]:
             if s["k"] == "call":
-                body += r_call(s, env, pn, "  ")
+                body += r_call(s, env, pn, "  ", depth + 1)
             else:
                 body += r_sop(s, env, pn, "  ")
         ret = o["ret"]
@@ -1128,20 +1132,24 @@ AVOID = [
     # --- pointers
     ("C07-pointer-to-member", r"\|(addr|argptr)\|(?!(P|In|int|A3\[\])\|)"),
     ("C07-arrow-array-member-rejected", r"\*\([^)]*\)\.arr\[\]"),
-    ("C07-arrow-nested-write-rejected", r"\|w\|\*\([^)]*\)\.inner\."),
+    ("C07-arrow-nested-write-rejected", r"\|(w|retdi)\|\*\([^)]*\)\.inner\."),
     ("C07-deref-whole-struct", r"\|(decl|cp[ds]|argval|retd?)\|\*\("),
     # --- whole-struct copies
     ("C07-struct-copy-loses-members", r"\|(decl|cp[ds]|retd?)\|" + P_TYPED + r"\|"),
     ("C07-array-member-assign-noop", r"\|cp[ds]\|.*arr\|"),
     ("C07-nested-struct-whole", r"\|(decl|cp[ds]|retd?|argval|recv|addr|argptr)\|.*\.inner\|"),
-    ("C07-callee-param-struct-copy", r"^[FSET].\|(cp[ds])\|par<|\|ret\|par<(ref|self|arr)"),
+    ("C07-callee-param-struct-copy", r"^[FSET].\|(cp[ds]|retd)\|par<|\|ret\|par<(ref|self|arr)"),
     # --- references / by-value parameters / self
-    ("C07-ref-array-member-write-lost", r"\|w\|par<ref P>\.arr\[\]"),
-    ("C07-ref-nested-write-rejected", r"\|w\|par<ref P>\.inner\."),
-    ("C07-byval-nested-write-lost", r"\|w\|par<val P>\.inner"),
+    ("C07-ref-array-member-write-lost", r"\|(w|retdi)\|par<ref P>\.arr\[\]"),
+    ("C07-ref-nested-write-rejected", r"\|(w|retdi)\|par<ref P>\.inner\."),
+    ("C07-byval-nested-write-lost", r"\|(w|retdi)\|par<val P>\.inner"),
     ("C07-method-wipes-members", r"\|recv\|(P\||par<\w+ P>|\*\([^)]*=>P\))"),
     ("C07-method-on-ref-param-rejected", r"\|recv\|par<ref"),
     ("C07-self-by-value-arg-rejected", r"\|argval\|par<self"),
+    ("C07-ref-param-passed-by-value-aliases", r"\|argval\|par<ref"),
+    ("C07-self-passed-by-reference-no-writethrough", r"\|arg(ref|ptr)\|par<self"),
+    ("C07-nested-member-dest-call-result-lost", r"\|retdi\|.*\.inner\."),
+    ("restriction-assign-to-self", r"\|(retd|cpd)\|par<self [^|.]*\|"),
     ("C07-self-call-return-exit-write-lost", r"\|recv\|par<self [^|]*\|.*R"),
     ("C07-array-element-dest-call-evaluated-twice", r"\|retdi\|.*\[\]"),
     ("C07-self-writethrough-stale", r"^[ST].\|[^|]*\|(In|P|PS|ES)|^[ST].\|[^|]*\|\*\("),
@@ -1419,7 +1427,10 @@ def nontrivial(case):
 
 
 def strip(case):
-    return {"place": case["place"], "ops": case["ops"]}
+    out = {"place": case["place"], "ops": case["ops"]}
+    if case.get("same_names"):
+        out["same_names"] = True
+    return out
 
 
 def run(rep):
@@ -1593,6 +1604,8 @@ def load_case(c):
             o["ret"] = None
         return o
     out = {"place": c.get("place", "local"), "ops": []}
+    if c.get("same_names"):
+        out["same_names"] = True
     for o in c["ops"]:
         out["ops"].append(fix_call(o) if o["k"] == "call" else fix_sop(o))
     return out
